@@ -25,7 +25,7 @@ from .. import expr_models as M
 from .. import expr_terms as T
 from .. import tlc, trace
 from ..core import Machinery, child_env
-from ..expr_pool import TRACE_CFG, action_totals
+from ..expr_pool import TRACE_CFG, action_totals, run_tlc
 from .c14 import discover
 from .c18 import json_term
 
@@ -64,9 +64,9 @@ def run(chk, replay=None):
     sigs = sorted({e.sig for e in embs})
     # 1. the law in the model --------------------------------------------------------------------------
     with ThreadPoolExecutor(max_workers=3) as ex:
-        f_main = ex.submit(tlc.run, "ExprOps_MC", X.class_cfg(sigs, leafs=("x", "y", "z") if tier == "thorough" else ("x", "y")),
+        f_main = ex.submit(run_tlc, "ExprOps_MC", X.class_cfg(sigs, leafs=("x", "y", "z") if tier == "thorough" else ("x", "y")),
                            workers=3, fast_start=False, timeout=1700)
-        f_cov = ex.submit(tlc.run, "ExprOps_MC", X.class_cfg(sigs, init="ClassInitD1", leafs=("x", "y"), full_quantification=True), workers=1, coverage=True, timeout=600)
+        f_cov = ex.submit(run_tlc, "ExprOps_MC", X.class_cfg(sigs, init="ClassInitD1", leafs=("x", "y"), full_quantification=True), workers=1, coverage=True, timeout=600)
         f_models = ex.submit(build_models, tier)
         res, cov = f_main.result(), f_cov.result()
     chk.add_tlc("laws_exhaustive", res)
